@@ -16,6 +16,8 @@ template <class A, class I, size_t R, size_t... Q> decltype(auto) arrAtImpl(A& a
 }
 template <class A, class I, size_t R> decltype(auto) arrAt(A& a, const std::array<I, R>& ix) { return arrAtImpl(a, ix, std::make_index_sequence<R>()); }
 
+template <class ARR, class D, size_t... Q> void emplacePack(std::optional<ARR>& slot, const D& d, std::index_sequence<Q...>) { slot.emplace(d[Q]...); }
+
 template <Kind K, class E, size_t SP, class Ctr> void regArr(const std::string& key) {
   using M = typename MapOf<K, E, SP>::type; using I = typename E::index_type; using L = typename M::layout_type;
   using ARR = mdx::mdarray<int, E, L, Ctr>; constexpr size_t R = E::rank();
@@ -38,6 +40,50 @@ template <Kind K, class E, size_t SP, class Ctr> void regArr(const std::string& 
         if (c == "ad") pool[num_(1)].emplace(makeMap<K, E, SP>(o), ctr); else pool[num_(1)].emplace(makeMap<K, E, SP>(o), std::move(ctr));
         continue;
       }
+      // ---- the remaining constructor forms (all collapse to ofMapping / adopt / convCons in the model)
+      if (c == "ci") {   // integer pack of the dynamic extents
+        if constexpr (std::is_constructible_v<M, const E&> && (R > 0 || E::rank_dynamic() == 0)) {
+          E e = makeExt<E>(o.ext); std::array<I, E::rank_dynamic() + 1> d{}; size_t q = 0;
+          for (size_t r = 0; r < R; r++) if (E::static_extent(r) == md::dynamic_extent) d[q++] = e.extent(r);
+          emplacePack(pool[num_(1)], d, std::make_index_sequence<E::rank_dynamic()>());
+        } else emit("no-ctor");
+        continue; }
+      if (c == "cd") {   // default constructor (rank_dynamic != 0 only)
+        if constexpr (std::is_default_constructible_v<ARR> && E::rank_dynamic() != 0) pool[num_(1)].emplace(); else emit("no-ctor");
+        continue; }
+      if (c == "cea" || c == "cma") {   // extents / mapping + allocator
+        if constexpr (!isStdArray<Ctr>::value) {
+          typename Ctr::allocator_type al{};
+          if (c == "cma") pool[num_(1)].emplace(makeMap<K, E, SP>(o), al);
+          else { if constexpr (std::is_constructible_v<M, const E&>) pool[num_(1)].emplace(makeExt<E>(o.ext), al); else emit("no-ctor"); }
+        } else emit("no-ctor");
+        continue; }
+      if (c == "ade" || c == "ame" || c == "adea" || c == "amea" || c == "adma" || c == "amma") {
+        auto v = lst(2); Ctr ctr{};
+        if constexpr (isStdArray<Ctr>::value) { for (size_t k = 0; k < ctr.size() && k < v.size(); k++) ctr[k] = static_cast<int>(v[k]); }
+        else { for (auto x : v) ctr.push_back(static_cast<int>(x)); }
+        const bool withAlloc = c.size() == 4, byMove = c[1] == 'm', fromExt = c[2] == 'e';
+        if (!withAlloc) {
+          if constexpr (std::is_constructible_v<M, const E&>) { if (byMove) pool[num_(1)].emplace(makeExt<E>(o.ext), std::move(ctr)); else pool[num_(1)].emplace(makeExt<E>(o.ext), ctr); }
+          else emit("no-ctor");
+        } else {
+          if constexpr (!isStdArray<Ctr>::value) {
+            typename Ctr::allocator_type al{};
+            if (fromExt) {
+              if constexpr (std::is_constructible_v<M, const E&>) { if (byMove) pool[num_(1)].emplace(makeExt<E>(o.ext), std::move(ctr), al); else pool[num_(1)].emplace(makeExt<E>(o.ext), ctr, al); }
+              else emit("no-ctor");
+            } else { if (byMove) pool[num_(1)].emplace(makeMap<K, E, SP>(o), std::move(ctr), al); else pool[num_(1)].emplace(makeMap<K, E, SP>(o), ctr, al); }
+          } else emit("no-ctor");
+        }
+        continue; }
+      if (c == "cv" || c == "cva") {   // converting constructor, through the all-dynamic twin and back
+        if (!pool[num_(2)]) { emit("skip"); continue; }
+        using DE = md::dextents<I, R>; using ARR2 = mdx::mdarray<int, DE, L, Ctr>;
+        if constexpr (std::is_constructible_v<ARR2, const ARR&> && std::is_constructible_v<ARR, const ARR2&>) {
+          if (c == "cv") { ARR2 t(*pool[num_(2)]); pool[num_(1)].emplace(t); }
+          else { if constexpr (!isStdArray<Ctr>::value) { typename Ctr::allocator_type al{}; ARR2 t(*pool[num_(2)], al); pool[num_(1)].emplace(t, al); } else emit("no-ctor"); }
+        } else emit("no-conv");
+        continue; }
       if (c == "cc") { if (pool[num_(2)]) pool[num_(1)].emplace(*pool[num_(2)]); else emit("skip"); continue; }
       if (c == "mc") { if (pool[num_(2)]) pool[num_(1)].emplace(std::move(*pool[num_(2)])); else emit("skip"); continue; }
       if (c == "ca") { if (pool[num_(1)] && pool[num_(2)]) *pool[num_(1)] = *pool[num_(2)]; else emit("skip"); continue; }
